@@ -284,6 +284,20 @@ Section Run.
         end
     end.
 
+  (* k-shortest-paths results (Yen): every returned route is judged by the chain clause only (non-empty, leaves the
+     source, chained, arrives at the target, every edge exists) and every returned tree by the tree clause; count,
+     distinctness and order of the alternatives are C13's. Forward searches only. *)
+  Definition check_ksp_outcome (w : world) (s t : nat) (o : outcome) : option string :=
+    let g := graph_of w in
+    if negb (String.eqb (o_status o) "Ok") then None else
+    if negb (forallb (fun tr => check_tree g Forward s (triples tr)) (o_trees o)) then Some "tree" else
+    if forallb (fun r => check_kroute g Forward s t (route_edges r)) (o_routes o) then None else Some "route".
+  Definition line_S_ksp (id : Z) (w : world) (s t : nat) (o : outcome) (detail : nat) : string :=
+    line "S" id (match check_ksp_outcome w s t o with
+                 | None => show_outcome o detail
+                 | Some why => "REJECT(" ++ why ++ ") " ++ show_outcome o 0
+                 end).
+
   Definition line_S (id : Z) (w : world) (q : query) (o : outcome) (detail : nat) : string :=
     line "S" id (match check_outcome w q o with
                  | None => show_outcome o detail
